@@ -247,6 +247,7 @@ type collDef struct {
 
 var collDefs = []collDef{
 	{kind: "string", kt: "int", vt: "rune", lit: `"héy\xffz"`, n: 5},
+	{kind: "string", kt: "int", vt: "rune", lit: `"a\uFFFDb\xef\xbf"`, n: 5},
 	{kind: "string", kt: "int", vt: "rune", lit: `""`, n: 0},
 	{kind: "slice", kt: "int", vt: "int", lit: `[]int{4, 5, 6}`, n: 3, muts: []string{"c[2] = 60 + n", "c = append(c, 7)", "c = c[:1]", "c[0] = 9"}},
 	{kind: "slice", kt: "int", vt: "any", lit: `[]any{1, nil, "z"}`, n: 3, muts: []string{"c[1] = n"}},
